@@ -485,7 +485,9 @@ func TestVerifC15Transp(t *testing.T) {
 			n = len(clientPreface)
 		}
 		total := uint32(1) << uint(n-1)
-		r.Count("compositions:"+name, int64(total))
+		if r.Shard == 0 { // counted once, not per shard
+			r.Count("compositions:"+name, 2*int64(total))
+		}
 		const chunk = 1 << 14
 		for lo := uint32(0); lo < total && !stopped; lo += chunk {
 			k++
